@@ -59,13 +59,17 @@ META = {
                "gmrf: 2-4 vertices, 1-2 features per vertex (1x1, 2x2 and one 4x4 covariance), 2-5 initial samples, 1-3 increments of 1-2 samples "
                "(thorough: random splits of 7-9 samples with the uninterpreted inverse)",
                "pca: n0 in {2,3,4}, d in {2,3}, increments of 1-2 samples, 1-3 increments",
+               "ipca_algebra: d = 2, 1-2 prior components (any orthonormal rows, any positive eigenvalues <= 4, any mean), "
+               "n_a in {k+1, k+3} (thorough k+1, k+2, k+5), 1-2 (thorough 3) new samples boxed to [-3,3], centred and uncentred",
                "data boxed to [-8,8]"],
     "stubs": ["scipy.sparse.bsr_matrix -> block-sum model (duplicates add, as scipy documents); replay uses real scipy",
               "numpy.cov / numpy.mean -> NumPy's documented formulae (engine model)",
               "numpy.linalg.inv -> cofactor inverse (engine model), non-singularity recorded as a side condition; "
               "inv=uf instances: menpo's _covariance_matrix_inverse -> uninterpreted function of its argument",
               "pca harnesses only: numpy.linalg.eigh / qr / svd -> arbitrary values of the right shapes, eigenvalues "
-              "ascending, non-negative, largest positive; singular values descending, non-negative, largest >= 0.01"],
+              "ascending, non-negative, largest positive; singular values descending, non-negative, largest >= 0.01",
+              "ipca_algebra: numpy.linalg.qr -> ANY orthogonal 2x2 matrix (over-approximates every QR factor Q); "
+              "numpy.linalg.svd -> instrument that records its argument and answers (I, 1, I); sqrt of concrete weights kept exact"],
     "assumptions": ["floats are modelled as exact reals (PCA means: tolerance 1e-9, menpo weights them with the "
                     "floats n_a/n, n_b/n)",
                     "covariance matrices that menpo inverts are non-singular (otherwise menpo raises / divides by "
